@@ -138,6 +138,43 @@ func (a *Anchors) inferFn(role string) *ssa.Function {
 				return f
 			}
 		}
+	case "sql.searchKeyword":
+		// the callee of the word look-up that takes the word and answers with a class byte
+		lk := a.FnOpt("sql.lookup")
+		if lk == nil {
+			return nil
+		}
+		var found []*ssa.Function
+		for _, ci := range ssax.Calls(lk) {
+			f := ci.Common().StaticCallee()
+			if f == nil || !p.InModule(f) || f.Signature.Results().Len() != 1 {
+				continue
+			}
+			b, ok := f.Signature.Results().At(0).Type().Underlying().(*types.Basic)
+			if !ok || b.Kind() != types.Uint8 {
+				continue
+			}
+			hasStr := false
+			for _, arg := range ci.Common().Args {
+				if bt, ok := arg.Type().Underlying().(*types.Basic); ok && bt.Kind() == types.String {
+					hasStr = true
+				}
+			}
+			if hasStr {
+				dup := false
+				for _, g := range found {
+					if g == f {
+						dup = true
+					}
+				}
+				if !dup {
+					found = append(found, f)
+				}
+			}
+		}
+		if len(found) == 1 {
+			return found[0]
+		}
 	case "sql.eolComment":
 		// the only module function that searches for a line feed with IndexByte
 		var found []*ssa.Function
